@@ -8,7 +8,7 @@ checks = {
  "C01": ("simmon", "exploration", "3 C01", "runtime monitoring: water-balance oracle on every sub-step and day of generated runs (in-process probes)",
    "Holds on every sub-step and day of the generated runs (residual <= 1e-9 cm); sampled inputs, not all inputs. Closure is checked at sub-step level, day level (with the daily flux, so lost sub-steps show), between days, and against the reported counters."),
  "C02": ("simmon", "exploration", "3 C02", "runtime monitoring: N-balance oracle with clamp accounting on every N sub-step and day of generated runs",
-   "Holds on every N sub-step and day of the generated runs (residual minus clamp-created N <= tolerance), incl. deposition/irrigation input and the instability flag; sampled inputs."),
+   "Holds on every N sub-step and day of the generated runs (residual minus clamp-created N <= tolerance), incl. deposition/irrigation input and the instability flag; the real transport routine is additionally run on copies of the live state with tillage-like mixed top-soil N and demand above the layers' content (uptake limit engaged); 12 % of the cases with automatic management; sampled inputs."),
  "C06": ("simmon", "exploration", "3 C06", "runtime monitoring: bound and finiteness assertions on the live state every day + NaN scan of result files",
    "Every layer every day within [WP/3, FC + capillary increment]; every float of the run state finite; sampled inputs."),
  "C07": ("simmon", "exploration", "3 C07", "runtime monitoring: pool/counter bookkeeping around every N-routine call, once-per-day crediting per sub-step, kernel calls of the real mineralisation routine",
@@ -26,9 +26,9 @@ checks = {
  "C17": ("fnmon", "exploration", "3 C17", "runtime monitoring: the real calcHermesBatch and hermes2go binaries executed for every (lines, nodes, encoding) triple up to the bound; executed log ids recorded and checked for exactly-once",
    "Exhaustive to the bound (quick L<=24,K<=26; thorough L<=60,K<=64; five encodings): ranges contiguous/disjoint/covering, count equals -size, every range executed by hermes2go -lines, each line id executed exactly once."),
  "C20": ("simmon", "exploration", "3 C20", "runtime monitoring: groundwater level read at the probe on every simulated day compared with an independent interpolation / sinusoid; dense calls of the public interpolation function",
-   "Level of every simulated day equals series value / linear interpolation / nearest end value, or the configured sinusoid within [min,max]; function-level: nodes, neighbours of nodes, outside span, random interior days of generated series."),
+   "Level of every simulated day equals series value / linear interpolation / nearest end value, or the configured sinusoid within [min,max]; series entries aligned with the edges of the simulated period; function-level: nodes, neighbours of nodes, outside span, random interior days of generated series, queried in random order."),
  "C05": ("simmon", "exploration", "3 C05", "runtime monitoring: the result files written by real generated runs are parsed and compared record by record with an independent calendar / rotation oracle",
-   "Daily file: exactly the expected days (start..end, interval k, leap days) in order; yearly file: one record per annual output date inside the period; crop file: one record per harvested rotation entry in order; every record has the configured number of fields; both styles; random output configurations. One open finding (end-date extension)."),
+   "Daily file: exactly the expected days (start..end, interval k, leap days) in order; yearly file: one record per annual output date inside the period; crop file: one record per harvested rotation entry in order; every record has the configured number of fields; both styles; random output configurations (date column anywhere, leading empty text fields, separators, alignments, NA values, 0-2 header lines, calendar-edge annual dates). One open finding (end-date extension)."),
  "C14": ("simmon", "exploration", "3 C14", "runtime monitoring: probe-and-abort read-back of the effective configuration from the real reader for generated file/line/default combinations, plus full runs with decoy file values",
    "Every scalar key (numeric, text, on/off, enum) in random subsets of file and line, unknown keys, missing file, two argument orders per case: effective value = line, else file, else default; full runs confirm the line value in run state and result files."),
  "C04": ("simmon", "exploration", "3 C04", "runtime monitoring: on every simulated day the weather arrays the model uses are compared at the probe with the generator's truth table for that calendar date; fault cases (incomplete weather) must end with an error",
@@ -36,15 +36,15 @@ checks = {
  "C10": ("simmon", "exploration", "3 C10", "runtime monitoring: exactly-once / ordering checker over the management event log of real runs against a reference reader of the generated schedule, plus state-jump assertions with amounts from the fertiliser table",
    "Fertilisation, tillage, irrigation, sowing, harvest: each scheduled action inside the period appears exactly once, in order, on its due day; pre-start actions ignored; irrigation water and N enter that day's infiltration / top layer; fertiliser pools change by the table amounts; 20% of cases with automatic management switches."),
  "C16": ("simmon", "exploration", "3 C16", "runtime monitoring: sowing / harvest days from the management event log and every automatic irrigation / N application observed at the probes are checked against the generated rotation and automatic-management table",
-   "Rotation order, crop code and harvest year of every crop record; fixed dates hit exactly; automatic sowing inside its window and after the previous harvest, harvest not after the latest date, irrigation only in the stage window and not above the daily maximum, automatic N >= 0; all 16 switch combinations."),
+   "Rotation order, crop code and harvest year of every crop record; fixed dates hit exactly; automatic sowing inside its window and after the previous harvest, harvest not after the latest date, irrigation only in the stage window and not above the daily maximum, automatic N >= 0; all 16 switch combinations; permanent crops followed by themselves; every fourth case rewritten around the harvest day observed in a probe run (fixed sowing right after a triggered harvest)."),
  "C13": ("pairmon", "exploration", "3 C13", "runtime monitoring: differential paired runs of the real model on one generated project written in two encodings; result files compared byte for byte",
    "Eight pair kinds (crop classic/YAML/converter-binary YAML, soil, rotation, measurement txt/CSV, weather layouts 0/1/2, date formats); every shipped annual main crop file covered; 12 significant digits of daily state compared."),
  "C18": ("pairmon", "exploration", "3 C18", "runtime monitoring: differential paired runs of the real model, override on the batch line vs the same edit in a copied parameter folder; result files compared byte for byte",
    "Every overridable base / per-stage / per-organ parameter x every shipped annual main crop file; valid values: override == file edit; out-of-range value or index: run == run without overrides."),
  "C03": ("batchmon", "exploration", "3 C03", "runtime monitoring: Go race detector + event-trace checker + result-hash comparison over the real hermes2go binary under randomised schedules (concurrency, line order, GOMAXPROCS, injected delays); porcupine linearizability check of recorded file-pool histories",
-   "Every line's result files equal its solo reference under every explored schedule, repeated solo runs reproduce, exactly one run_start/run_end per line in the trace, no race report, file-pool histories linearizable against a load-once model; the interleavings seen (max simultaneous runs, distinct completion orders) are reported."),
+   "Every line's result files equal its solo reference under every explored schedule (batches contain repeated lines, exact duplicates, lines that log while valid, custom crop codes, a numerically unstable project and configuration variants of one project), repeated solo runs reproduce, exactly one run_start/run_end per line in the trace, no race report, file-pool histories (files from a few bytes to 4 MiB, first-load storms) linearizable against a load-once model; the interleavings seen (max simultaneous runs, distinct completion orders) are reported."),
  "C11": ("batchmon", "fault_enumeration", "3 C11", "runtime monitoring: fault enumeration (reported-error class x position x concurrency) over the real hermes2go binary with race detector, trace checker and result-hash comparison; bounded-progress monitor on logical steps for termination",
-   "Seven reported-error classes each fail only their own line with the expected message, all other lines equal their solo results, the summary lists exactly the failed ids; runs incl. fertiliser prediction at latitudes -70..80 stay within the logical step bounds; a crash on a valid generated input is reported."),
+   "Seven reported-error classes, each in several shapes (other horizon, window boundaries incl. the harvest day, single-day / late gaps, ids extending or shortening an existing id), each fail only their own line with the expected message, all other lines equal their solo results, the summary lists exactly the failed ids; runs incl. fertiliser prediction at latitudes -70..80 stay within the logical step bounds; a crash on a valid generated input is reported."),
 }
 
 not_applicable = {
